@@ -171,6 +171,15 @@ class Run:
         self.bounded.append(dict(name=name, evaluations=evaluations, distinct_nontrivial=distinct_nontrivial,
                                  rule=rule, samples=samples[:5], exhaustive=exhaustive))
 
+    def pmap(self, fn, tasks, workers=None):
+        """bounded stand-ins are embarrassingly parallel: run module-level fn over tasks in a fork pool (results in order)"""
+        import multiprocessing as mp
+        workers = workers or min(16, os.cpu_count() or 1, max(1, len(tasks)))
+        if workers <= 1 or len(tasks) <= 1:
+            return [fn(t) for t in tasks]
+        with mp.get_context('fork').Pool(workers) as pool:
+            return pool.map(fn, tasks, chunksize=1)
+
     # ------------------------------------------------------------------ finish
     def finish(self, crashed=None):
         obls = self.eng.obls
